@@ -180,3 +180,29 @@ def replay(lab, path):
         print("VIOLATION property=C14 replay=%s" % path)
         return 1
     return 0
+
+
+def selftest(lab):
+    """binding demonstration for CanaryTCP_Trace: recorded reactions of the real listener are accepted; an acknowledgement number
+    off by one, a frame addressed to nobody and a dropped SYN line are rejected"""
+    scs = special_cases(0)[1:4]
+    results = {r["id"]: r for r in lib.run_sharded(lab, "c14", scs, shards=1, timeout=600)}
+    lines = [ln for sc in scs for ln in results[sc["id"]]["lines"]]
+
+    def validate(ls, tag):
+        path = os.path.join(lib.scratch(), "c14-selftest-%s.ndjson" % tag)
+        lib.write_ndjson(path, ls)
+        return lib.tlc("CanaryTCP_Trace", workers=1, timeout=300, extra_files={"trace.ndjson": path}, want_scn=False)
+    clean = validate(lines, "clean")
+    b1 = json.loads(json.dumps(lines))
+    k = next(i for i, ln in enumerate(b1) if ln["k"] == "data" and ln["emitted"])
+    b1[k]["emitted"][0]["ackRel"] += 1
+    r1 = validate(b1, "ack")
+    b2 = json.loads(json.dumps(lines))
+    b2[k]["emitted"][0]["to"] = 0
+    r2 = validate(b2, "to")
+    ks = next(i for i, ln in enumerate(lines) if ln["k"] == "syn")
+    r3 = validate(lines[:ks] + lines[ks + 1:], "drop")
+    print("selftest C14: clean accepted=%s; ack+1 rejected=%s (line %s, expected %d); addressed to nobody rejected=%s; SYN line dropped rejected=%s" % (
+        clean.ok, not r1.ok, lib.rejected_at(r1), k + 1, not r2.ok, not r3.ok))
+    return 0 if clean.ok and not r1.ok and lib.rejected_at(r1) == k + 1 and not r2.ok and not r3.ok else 1
